@@ -85,3 +85,46 @@ End Loops.
     repeats and attempts fail. *)
 Definition clk_of (l : list ts) (k : nat) : ts := nth k l (last l (0, 0)).
 Definition att_of (l : list bool) (i : nat) : bool := nth i l false.
+
+(** ** the same loops, returning the sequence of externally visible actions
+
+    Library tier (controlled runs of the real library, tools/props/c20.py [lib_tier]): every clock
+    reading, every lock / join attempt and every yield of a call is an event of the trace.  The
+    functions below are the transliteration of the three loops once more, returning next to the
+    outcome the list of these actions in program order; [TimeLib.v] proves that the outcome is the
+    one of [nanosleep] / [timed] and that the list has the shape the code dictates. *)
+Inductive pev := PRead (k : nat) | PAttempt (i : nat) | PYield.
+
+Section LoopsEv.
+  Variable clk : nat -> ts.
+
+  (** [hr_gettime(cur); add; while (1) { hr_gettime(cur); if (gt) break; myth_yield_body(); } return 0;] *)
+  Fixpoint sleep_loop_ev (fuel k : nat) (unt : ts) (y : nat) : outcome * list pev :=
+    match fuel with
+    | O => (OutOfFuel, [])
+    | S f => if ts_gt (clk k) unt then (Ret 0 (S k) y, [PRead k])
+             else let (o, l) := sleep_loop_ev f (S k) unt (S y) in (o, PRead k :: PYield :: l)
+    end.
+
+  Definition nanosleep_ev (fuel : nat) (req : ts) : outcome * list pev :=
+    if fst req <? 0 then (Ret EINVAL 0 0, [])
+    else if snd req <? 0 then (Ret EINVAL 0 0, [])
+    else if snd req >? 999999999 then (Ret EINVAL 0 0, [])
+    else let (o, l) := sleep_loop_ev fuel 1 (ts_add (clk 0) req) 0 in (o, PRead 0 :: l).
+
+  Variable att : nat -> bool.
+
+  (** [if (try() == 0) return 0; while (1) { gettime; if (gt) return TO; if (try() == 0) return 0; yield; }] *)
+  Fixpoint timed_loop_ev (tocode : Z) (fuel k i : nat) (abst : ts) (y : nat) : outcome * list pev :=
+    match fuel with
+    | O => (OutOfFuel, [])
+    | S f => if ts_gt (clk k) abst then (Ret tocode (S k) y, [PRead k])
+             else if att i then (Ret 0 (S k) y, [PRead k; PAttempt i])
+             else let (o, l) := timed_loop_ev tocode f (S k) (S i) abst (S y) in
+                  (o, PRead k :: PAttempt i :: PYield :: l)
+    end.
+
+  Definition timed_ev (tocode : Z) (fuel : nat) (abst : ts) : outcome * list pev :=
+    if att 0 then (Ret 0 0 0, [PAttempt 0])
+    else let (o, l) := timed_loop_ev tocode fuel 0 1 abst 0 in (o, PAttempt 0 :: l).
+End LoopsEv.
